@@ -225,7 +225,7 @@ impl DOP853 {
         let mut steps = Steps::new();
         let mut xold = x;
         let mut xout = None;
-        let mut event;
+        let mut event = false;
         let expo1 = 1.0 / 8.0 - beta * 0.2;
         let status;
         let posneg = (xend - x).signum();
@@ -436,15 +436,18 @@ impl DOP853 {
             fac = facc2.max(facc1.min(fac / safety_factor));
             hnew = h / fac;
 
-            if err <= 1.0 {
-                // Step accepted
-                facold = err.max(1.0e-4);
-                steps.accepted += 1;
+            // The derivative at the new point (and the extra stages of the dense output) are not
+            // part of the error estimate: a step for which they are not finite cannot stand.
+            let mut accept = err <= 1.0;
+            if accept {
                 f.ode(xph, &k5, &mut k4);
                 evals.ode += 1;
+                accept = k4.iter().all(|v| v.is_finite());
+            }
 
+            if accept {
                 // Stiffness detection
-                if (steps.accepted % nstiff == 0) || (iasti > 0) {
+                if ((steps.accepted + 1) % nstiff == 0) || (iasti > 0) {
                     let mut stnum: Float = 0.0;
                     let mut stden: Float = 0.0;
                     for i in 0..n {
@@ -589,7 +592,16 @@ impl DOP853 {
                                 + D715 * k2[i]
                                 + D716 * k3[i]);
                     }
+
+                    // The three extra stages are not seen by the error estimate either
+                    accept = cont.iter().all(|v| v.is_finite());
                 }
+            }
+
+            if accept {
+                // Step accepted
+                facold = err.max(1.0e-4);
+                steps.accepted += 1;
 
                 // Update state variables
                 k1.copy_from_slice(&k4);
@@ -641,8 +653,8 @@ impl DOP853 {
                     reject = false;
                 }
             } else {
-                // Step rejected
-                hnew = h / facc1.min(fac11 / safety_factor);
+                // Step rejected (with err <= 1 because of a non-finite new derivative: strongest reduction)
+                hnew = if err <= 1.0 { h / facc1 } else { h / facc1.min(fac11 / safety_factor) };
                 reject = true;
                 if steps.accepted > 1 {
                     steps.rejected += 1;
